@@ -388,7 +388,7 @@ def replay_payload(prog, data, files, ref, real, seed, note=""):
 def run(tier, seed, replay=None):
     rep = C.Report(PID, "other", tier, seed)
     t0 = time.time()
-    info, problems = C.prove(PID, ["HexVerif.X.Examples", "HexVerif.Properties.C01", "HexVerif.Lemmas.XcmpIAm", "HexVerif.Lemmas.XcmpExpr"])
+    info, problems = C.prove(PID, ["HexVerif.X.Examples", "HexVerif.Properties.C01", "HexVerif.Lemmas.XcmpIAm", "HexVerif.Lemmas.XcmpExpr", "HexVerif.Lemmas.XcmpStage3"])
     h = C.build_harness("h_xcmp", extra_srcs=["hex.cpp"])
     drv = C.driver_exe("xsemdriver")
 
